@@ -2,6 +2,7 @@
 pub mod crash;
 pub mod dump;
 pub mod engine;
+pub mod fuzzing;
 pub mod hist;
 pub mod known;
 pub mod props;
